@@ -334,7 +334,7 @@ func genSuiteString(t *rapid.T, allowInvalid bool) string {
 
 func genBuilt(t *rapid.T, allowInvalid bool) SuiteSpec {
 	s := SuiteSpec{
-		Raw:       rapid.SampledFrom([]string{"", "OCRA-1:HOTP-SHA1-6:QN08", "custom", "x:y:z"}).Draw(t, "bRaw"),
+		Raw:       rapid.SampledFrom([]string{"", "OCRA-1:HOTP-SHA1-6:QN08", "OCRA-1:HOTP-SHA256-8:C-QA10", "OCRA-1:HOTP-SHA512-6:C", "custom", "x:y:z"}).Draw(t, "bRaw"),
 		Hash:      rapid.IntRange(0, 2).Draw(t, "bHash"),
 		Digits:    rapid.IntRange(4, 10).Draw(t, "bDig"),
 		Challenge: rapid.IntRange(1, 6).Draw(t, "bChal"),
@@ -422,9 +422,18 @@ func genAccount(t *rapid.T, prop string, kind string) Account {
 		if weighted(t, "tokSess?", 8, 1) == 1 {
 			a.TokSession = rapid.SliceOfN(rapid.Byte(), 0, 128).Draw(t, "tokSession")
 		}
-		if weighted(t, "tokSuite?", 8, 1) == 1 {
+		switch weighted(t, "tokSuite?", 8, 1, 2) {
+		case 1:
 			ts := genSuiteSpec(t, false)
 			a.TokSuite = &ts
+		case 2:
+			// the same configuration handed over through another Suite implementation
+			// (SuiteConfig value / RawSuite struct / NewSuite result): must mean the same
+			if a.Suite.Mode == "newsuite" || a.Suite.Mode == "rawstruct" || a.Suite.Mode == "config" {
+				ts := a.Suite
+				ts.Mode = rapid.SampledFrom([]string{"newsuite", "rawstruct", "config"}).Draw(t, "tokSuiteMode")
+				a.TokSuite = &ts
+			}
 		}
 		a.TokOffsetS = rapid.Int64Range(-5, 5).Draw(t, "tokOffS")
 		a.DriftPPM = rapid.IntRange(-300, 300).Draw(t, "drift")
